@@ -142,6 +142,47 @@ def mapperOf (tables : List W.TableDef) (mode : String) : Bytes → Bytes → Op
       let cols := if mode == s!"more@{idx}" then cols ++ [([120], false)] else if mode == s!"less@{idx}" then cols.dropLast else cols
       some { db := db, table := nm, columns := cols }
 
+/-- `pad=1`: the unused high bits of the last byte of every bitmap are SET, as a real master leaves them
+    (`bitmap_set_all` for the column bitmaps, `null_bits = (1 << 8) - 1` in pack_row); the Spec writers of
+    GV/Spec/Events.lean clear them. Readers must not look at those bits. -/
+def bmBytes (pad : Bool) (bits : List Bool) : Bytes :=
+  if pad then W.bitmapBytes (bits ++ List.replicate ((8 - bits.length % 8) % 8) true) else W.bitmapBytes bits
+
+def imageBytesP (pad : Bool) (cols : List W.ColDef) (vals : List (Option W.CellVal)) : Bytes :=
+  bmBytes pad (vals.map (·.isNone)) ++
+    (List.zip cols vals).flatMap fun (c, v) => match v with | some x => W.cell c.typ c.md x | none => []
+
+def rowsBodyP (pad : Bool) (k : W.RowKind) (v2 : Bool) (idw id flags : Nat) (extra : Bytes) (cols : List W.ColDef)
+    (presentBefore presentAfter : List Bool) (rows : List (List (Option W.CellVal) × List (Option W.CellVal))) : Bytes :=
+  let hasBefore := k != .write
+  let hasAfter := k != .delete
+  Bytes.ofLE idw id ++ Bytes.ofLE 2 flags ++ (if v2 then Bytes.ofLE 2 (2 + extra.length) ++ extra else [])
+    ++ W.lenenc cols.length
+    ++ (if hasBefore then bmBytes pad presentBefore else [])
+    ++ (if hasAfter then bmBytes pad presentAfter else [])
+    ++ rows.flatMap fun (b, a) =>
+        (if hasBefore then imageBytesP pad (W.selectPresent presentBefore cols) b else []) ++
+        (if hasAfter then imageBytesP pad (W.selectPresent presentAfter cols) a else [])
+
+/-- the rows changes of a history, in log order -/
+def rowsOfUnit : W.Unit → List W.RowsChange
+  | .tx _ cs _ _ => cs.filterMap fun c => match c with | .rows r => some r | _ => none
+  | .autoRows c => [c]
+  | _ => []
+
+/-- `pad=1` on a history: every ROWS event is re-written with the padding bits of its bitmaps set (same length, so
+    offsets and headers are unchanged): the packet whose body equals the Spec body of a rows change gets the padded body -/
+def padPacket (cfg : W.Cfg) (rcs : List W.RowsChange) (b : Bytes) : Bytes :=
+  let idw := if cfg.idw4 then 4 else 6
+  match rcs.find? (fun c =>
+      let body := W.rowsBody c.kind cfg.rowsV2 idw c.table.id c.flags c.extra c.table.cols c.presentBefore c.presentAfter c.rows
+      (b.drop 19).take body.length == body && b.getD 4 0 == UInt8.ofNat (W.rowsEventType c.kind cfg.rowsV2)) with
+  | some c =>
+      let body := W.rowsBody c.kind cfg.rowsV2 idw c.table.id c.flags c.extra c.table.cols c.presentBefore c.presentAfter c.rows
+      b.take 19 ++ rowsBodyP true c.kind cfg.rowsV2 idw c.table.id c.flags c.extra c.table.cols c.presentBefore c.presentAfter c.rows
+        ++ b.drop (19 + body.length)
+  | none => b
+
 /-- `bias=N` (large-offset histories): every offset beyond the head FORMAT_DESCRIPTION event of a file is moved up
     by N, as if N more bytes of earlier events lay between the file head and the first served unit. An event's bytes
     depend on its place only through the header's next_position field (and the checksum, which the replica does not
@@ -178,6 +219,7 @@ def handleHist (a : Args) : String :=
   let packets := if bias == 0 then packets else match packets with
     | f :: rest => relocFirst fnext bias f :: rest.map (relocPacket fnext bias)
     | [] => []
+  let packets := if argBool a "pad" then packets.map (padPacket cfg (h.flatMap rowsOfUnit)) else packets
   -- packets the harness wants injected / replaced: inject=<index>:<hex>
   let packets := match (arg a "inject").splitOn ":" with
     | [i, b] => packets.take (n i) ++ [hb b] ++ packets.drop (n i)
